@@ -209,6 +209,22 @@ CHECKS = {
         'CPython datetime arithmetic is the ground truth for instants; float '
         'tolerances as stated in the evidence assumptions',
         'DESIGN.md section 2, C20'),
+    'C18': (
+        'harness-owned cooperative scheduler over real threads (systematic '
+        'preemption-bounded DFS, Hypothesis-drawn schedules) + free-running '
+        'threads; differential against sequential baselines',
+        'Generated-input search over (assignment of 60 pool statements x 3 '
+        'documents to 2-4 threads, schedule). Scheduling points are function '
+        'dispatch (yaql.language.runner.call), pulls from instrumented '
+        'sources and FrozenDict iteration, all patched from the harness; '
+        'exactly one managed thread runs at a time, so a run is a pure '
+        'function of the choice sequence and replays from JSON. Systematic '
+        'tier: pairs of statements, every schedule with <=2 (thorough <=3) '
+        'preemptions; random tier; free-running tier at 1 us switch interval '
+        'incl. yaql.eval. Oracle: every result equals the one computed alone; '
+        'shared parent context chain unchanged.',
+        'interleavings inside C-level calls are not controllable; the '
+        'free-running tier is probabilistic', 'DESIGN.md section 2, C18'),
     'C19': (
         'Hypothesis-generated single calls of every strings/regex function '
         'against an independent index-arithmetic model; exhaustive '
